@@ -118,9 +118,7 @@ def extendLiteralFunc (len : Nat) : LiteralKind → String × SyntaxKind × Nat
      .STRING, len)
   | .bitStr terminated consecutiveUnderscores =>
     (if !terminated then
-       (if !consecutiveUnderscores then
-          "Missing trailing `\"` symbol to terminate the bitstring literal"
-        else "")
+       "Missing trailing `\"` symbol to terminate the bitstring literal"
      else if consecutiveUnderscores then
        "Consecutive underscores not allowed in bitstring literal"
      else "",
